@@ -68,10 +68,16 @@ def base_library(i):
             "@book{k, author = {A B and C D}, bookauthor = {E F and G H}, namea = {I J}, title = {T}}\n@misc{m, bookauthor = {K L}}",
             append_middleware=[mw.SeparateCoAuthors(name_fields=wide), mw.SplitNameParts(name_fields=("author", "bookauthor"))],
         )
+    if i == n + 8:  # a duplicate-key block whose first holder has meanwhile become a middleware-error block (so the
+        # wrapper's previous_block is no longer among the library's blocks), and an ordinary duplicate after it
+        return bibtexparser.parse_string(
+            "@a{dup, author = {Doe,}, t = {x}}\n@b{dup, author = {A B}}\n@c{ok, author = {C D}}\n@c{ok, author = {E F}}",
+            append_middleware=[mw.SeparateCoAuthors(), mw.SplitNameParts()],
+        )
     raise IndexError(i)
 
 
-NLIBS = len(DOCS) + 8
+NLIBS = len(DOCS) + 9
 
 
 def pool():
